@@ -805,5 +805,6 @@ def instr_names(code, acc=None):
 def env_strategy():
     return st.fixed_dictionaries({
         "amount": gt.mutez(), "balance": gt.mutez(), "sender": gt.addresses(with_ep=False), "source": gt.addresses(kinds=(0,), with_ep=False),
-        "now": gt.timestamps(), "level": st.integers(0, 2 ** 31), "chain_id": gt.chain_ids(),
+        "now": gt.timestamps(), "level": st.one_of(st.sampled_from([0, 1, 2 ** 30 - 1, 2 ** 30, 2 ** 31 - 1, 2 ** 31]), st.integers(0, 2 ** 31)),
+        "chain_id": gt.chain_ids(),
         "self_address": gt.addresses(kinds=(1,), with_ep=False), "min_block_time": st.integers(1, 60)})
